@@ -78,33 +78,55 @@ class Ctx:
 # ------------------------------------------------------------------------- build steps
 
 def build_tools(ctx):
-    """extractors, Generated/*.lean, harness, Lean driver — all from /repo's working tree."""
-    with Lock():
-        rc, out = sh(["go", "build", "-o", EXTRACT, "."], cwd=os.path.join(VERIF, "extract"), env=GOENV)
-        if rc != 0:
-            raise SystemExit(f"extract build failed:\n{out}")
-        rc, out = sh([EXTRACT, REPO, GEN, FACTS])
-        if rc != 0:
-            raise SystemExit(f"extract failed:\n{out}")
-        # go.sum of the harness follows /repo's
-        try:
-            src = open(os.path.join(REPO, "go.sum")).read()
-            dst_p = os.path.join(VERIF, "harness", "go.sum")
-            if not os.path.exists(dst_p) or open(dst_p).read() != src:
-                open(dst_p, "w").write(src)
-        except OSError:
-            pass
-        rc, out = sh(["go", "build", "-tags", "verif", "-o", HARNESS, "."], cwd=os.path.join(VERIF, "harness"),
-                     env=GOENV)
-        ctx.harness_ok = rc == 0
-        ctx.harness_log = out
-        rc, out = sh(["lake", "build", "driver"], cwd=LEAN)
-        ctx.driver_ok = rc == 0
-        ctx.driver_log = out
+    """extractors, Generated/*.lean, harness, Lean driver — all from the repo's working tree.
+
+    Must be called with the Lock held (standard_flow does); the harness and driver binaries are
+    copied to a per-run directory so that a concurrent run (possibly against a scratch copy of the
+    repository, VERIF_REPO=<dir>) cannot replace them under our feet."""
+    global HARNESS, DRIVER
+    run_dir = os.path.join(BUILD, f"run-{os.getpid()}")
+    os.makedirs(run_dir, exist_ok=True)
+    ctx.run_dir = run_dir
+    rc, out = sh(["go", "build", "-o", EXTRACT, "."], cwd=os.path.join(VERIF, "extract"), env=GOENV)
+    if rc != 0:
+        raise SystemExit(f"extract build failed:\n{out}")
+    rc, out = sh([EXTRACT, REPO, GEN, FACTS])
+    if rc != 0:
+        raise SystemExit(f"extract failed:\n{out}")
+    hdir = os.path.join(VERIF, "harness")
+    modfile = os.path.join(hdir, "go.mod")
+    if os.path.realpath(REPO) != "/repo":
+        modfile = os.path.join(run_dir, "go.mod")
+        open(modfile, "w").write(open(os.path.join(hdir, "go.mod")).read().replace("=> /repo", "=> " + os.path.realpath(REPO)))
+    try:
+        src = open(os.path.join(REPO, "go.sum")).read()
+        dst_p = modfile[:-4] + ".sum"
+        if not os.path.exists(dst_p) or open(dst_p).read() != src:
+            open(dst_p, "w").write(src)
+    except OSError:
+        pass
+    HARNESS = os.path.join(run_dir, "harness")
+    rc, out = sh(["go", "build", "-modfile", modfile, "-tags", "verif", "-o", HARNESS, "."], cwd=hdir, env=GOENV)
+    ctx.harness_ok = rc == 0
+    ctx.harness_log = out
+    rc, out = sh(["lake", "build", "driver"], cwd=LEAN)
+    ctx.driver_ok = rc == 0
+    ctx.driver_log = out
+    if ctx.driver_ok:
+        import shutil
+        DRIVER = os.path.join(run_dir, "driver")
+        shutil.copy2(os.path.join(LEAN, ".lake", "build", "bin", "driver"), DRIVER)
     if not ctx.harness_ok:
-        ctx.log("harness does not build against /repo:\n" + ctx.harness_log[-3000:])
+        ctx.log("harness does not build against the repository:\n" + ctx.harness_log[-3000:])
     if not ctx.driver_ok:
         ctx.log("lean driver does not build:\n" + ctx.driver_log[-3000:])
+
+
+def cleanup(ctx):
+    import shutil
+    d = getattr(ctx, "run_dir", None)
+    if d and os.path.isdir(d):
+        shutil.rmtree(d, ignore_errors=True)
 
 
 def lean_sources_of(module):
@@ -136,8 +158,7 @@ def prove(ctx, module, theorems, table_obligations=()):
     Every theorem in `theorems` is one obligation; it is discharged iff the module builds and
     `#print axioms` reports only allowed axioms.  `table_obligations` names theorems that are
     about regenerated data (listed separately in the evidence)."""
-    with Lock():
-        rc, out = sh(["lake", "build", module], cwd=LEAN)
+    rc, out = sh(["lake", "build", module], cwd=LEAN)
     ctx.lean_log = out
     built = rc == 0
     if not built:
@@ -181,8 +202,7 @@ def prove(ctx, module, theorems, table_obligations=()):
     ctx.coverage["theorems"] = {t: sorted(axioms.get(t, [])) if t in axioms else None for t in theorems}
     ctx.coverage["table_obligations"] = list(table_obligations)
     if ctx.tier == "thorough" and built:
-        with Lock():
-            rc3, out3 = sh(["lake", "env", "leanchecker", module], cwd=LEAN)
+        rc3, out3 = sh(["lake", "env", "leanchecker", module], cwd=LEAN)
         ctx.obligation(f"leanchecker replay of {module}", rc3 == 0, out3[-300:] if rc3 else "")
     return built
 
@@ -320,9 +340,13 @@ def finish(ctx, level="proof", checker_cmd=None, trusted_base=None):
           "assumptions": ctx.assumptions, "wall_s": round(time.time() - ctx.t0, 2),
           "violations": len(ctx.violations)}
     os.makedirs(os.path.join(VERIF, "evidence"), exist_ok=True)
-    if not ctx.replay_mode:
+    if os.path.realpath(REPO) != "/repo":
+        os.makedirs(os.path.join(BUILD, "alt-evidence"), exist_ok=True)
+        json.dump(ev, open(os.path.join(BUILD, "alt-evidence", f"{ctx.prop}.json"), "w"), indent=1, sort_keys=True)
+    elif not ctx.replay_mode:
         json.dump(ev, open(os.path.join(VERIF, "evidence", f"{ctx.prop}.json"), "w"), indent=1, sort_keys=True)
     ok = not ctx.violations
+    cleanup(ctx)
     ctx.log(f"obligations {dis}/{obl}, evaluations {cov['evaluations']}, violations {len(ctx.violations)}, "
             f"known findings hit {sum(ctx.known_hits.values())}, wall {ev['wall_s']}s")
     return 0 if ok else 1
@@ -344,8 +368,9 @@ def standard_flow(ctx, prop_lc, module, theorems, matchers, nontrivial, describe
 
     nontrivial(case, impl) -> hashable key or None; describe(case, impl, model, spec) -> dict
     """
-    build_tools(ctx)
-    built = prove(ctx, module, theorems, table_obligations)
+    with Lock():
+        build_tools(ctx)
+        built = prove(ctx, module, theorems, table_obligations)
     if not (ctx.harness_ok and ctx.driver_ok):
         ctx.obligation("harness and model driver build against /repo", False,
                        (ctx.harness_log if not ctx.harness_ok else ctx.driver_log)[-400:])
